@@ -207,6 +207,7 @@ func (mf *manifestFile) addChanges(changesParam []*pb.ManifestChange, opt Option
 	// Maybe we could use O_APPEND instead (on certain file systems)
 	mf.appendLock.Lock()
 	defer mf.appendLock.Unlock()
+	defer verifPoint("persist.manifest.done")
 	if err := applyChangeSet(&mf.manifest, &changes, opt); err != nil {
 		return err
 	}
@@ -221,9 +222,11 @@ func (mf *manifestFile) addChanges(changesParam []*pb.ManifestChange, opt Option
 		binary.BigEndian.PutUint32(lenCrcBuf[0:4], uint32(len(buf)))
 		binary.BigEndian.PutUint32(lenCrcBuf[4:8], crc32.Checksum(buf, y.CastagnoliCrcTable))
 		buf = append(lenCrcBuf[:], buf...)
+		verifPoint("persist.manifest.before-write", uint64(len(buf)))
 		if _, err := mf.fp.Write(buf); err != nil {
 			return err
 		}
+		verifPoint("persist.manifest.written")
 	}
 
 	return syncFunc(mf.fp)
